@@ -14,6 +14,7 @@ from ._helpers_rules_c import (
     attr_store_sites, both, call_nodes, calls_ending, cut_edges, cut_exc_out, fin_quiet, must_pass, own_calls, quiet,
     rcfg, receiver_class, reraise_view, test_edges, trivial_predicates,
 )
+from ._helpers_rob_a import normal_form, transitive_owners
 
 R = Registry(
     "C23",
@@ -49,6 +50,12 @@ def _is_const(v, val):
     return isinstance(v, ast.Constant) and v.value is val
 
 
+def _nf(ctx, key, *keep, alias="all"):
+    """The anchored function in refactoring-robust normal form (extracted helpers inlined, single-assignment
+    locals resolved; see _helpers_rob_a).  `keep`: the callee names the rule recognises by name."""
+    return normal_form(ctx, ctx.func(key), keep=keep, alias=alias)
+
+
 # ---------------------------------------------------------------------- C23-R1 (shared with C27-R4)
 EFFECT = {
     f"{ENG}::RootTransaction._do_commit": ("_connection_commit_impl", "_commit_impl", "_commit_twophase_impl"),
@@ -62,7 +69,7 @@ CURRENT_ATTR = {
 
 def commit_requires_active(ctx):
     for key, effects in EFFECT.items():
-        f = ctx.func(key)
+        f = _nf(ctx, key, *effects, "_invalid_transaction", "_deactivate_from_connection")
         g = ctx.cfg(f)
         eff = calls_ending(g, *effects)
         ctx.require(eff, f"no database-effect call ({'/'.join(effects)}) in {key}")
@@ -108,7 +115,8 @@ def r1(ctx):
              "connection._transaction is cleared only when COMMIT succeeded")
 def r2(ctx):
     # ---- RootTransaction._close_impl
-    f = ctx.func(f"{ENG}::RootTransaction._close_impl")
+    f = _nf(ctx, f"{ENG}::RootTransaction._close_impl", "_connection_rollback_impl", "_rollback_impl",
+            "_deactivate_from_connection", "_cancel")
     g = ctx.cfg(f)
     rb = calls_ending(g, "_connection_rollback_impl", "_rollback_impl")
     ctx.require(rb, "no rollback call in RootTransaction._close_impl")
@@ -129,7 +137,7 @@ def r2(ctx):
               "(in_transaction() would stay True, begin() would fail)",
               "connection._transaction = None on every exit while it is this transaction", f.loc, w if clr else None)
     # ---- NestedTransaction._close_impl
-    f = ctx.func(f"{ENG}::NestedTransaction._close_impl")
+    f = _nf(ctx, f"{ENG}::NestedTransaction._close_impl", "_rollback_to_savepoint_impl", "_deactivate_from_connection")
     g = ctx.cfg(f)
     rb = calls_ending(g, "_rollback_to_savepoint_impl")
     ctx.require(rb, "no ROLLBACK TO SAVEPOINT call in NestedTransaction._close_impl")
@@ -144,7 +152,8 @@ def r2(ctx):
               "an exit of _close_impl (e.g. a failing ROLLBACK TO SAVEPOINT) leaves the savepoint active",
               "is_active = False on every exit", f.loc, w if off else None)
     # ---- RootTransaction._do_commit
-    f = ctx.func(f"{ENG}::RootTransaction._do_commit")
+    f = _nf(ctx, f"{ENG}::RootTransaction._do_commit", "_connection_commit_impl", "_commit_impl",
+            "_deactivate_from_connection", "_cancel", "_invalid_transaction")
     g = ctx.cfg(f)
     cm = calls_ending(g, "_connection_commit_impl", "_commit_impl")
     ctx.require(cm, "no commit call in RootTransaction._do_commit")
@@ -175,7 +184,8 @@ def r2(ctx):
               "a successful COMMIT can leave the finished transaction installed as connection._transaction",
               "commit ok -> connection._transaction = None", f.loc, w)
     # ---- NestedTransaction._do_commit
-    f = ctx.func(f"{ENG}::NestedTransaction._do_commit")
+    f = _nf(ctx, f"{ENG}::NestedTransaction._do_commit", "_release_savepoint_impl", "_deactivate_from_connection",
+            "_invalid_transaction")
     g = ctx.cfg(f)
     rel = calls_ending(g, "_release_savepoint_impl")
     ctx.require(rel, "no RELEASE SAVEPOINT call in NestedTransaction._do_commit")
@@ -227,6 +237,19 @@ def r3(ctx):
             key = f"{owner}:{attr}"
             if key in seen:
                 continue
+            if key not in TRANSACTION_WRITERS:
+                # a private helper all of whose callers are listed writers acts for them (extracted helper)
+                listed = {k.rsplit(":", 1)[0] for k in TRANSACTION_WRITERS if k.endswith(":" + attr)}
+                acts_for = transitive_owners(ix, owner, listed)
+                if acts_for:
+                    for o in acts_for:
+                        k2 = f"{o}:{attr}"
+                        if k2 not in seen:
+                            seen.add(k2)
+                            n += 1
+                            ctx.ok(k2, TRANSACTION_WRITERS[k2] + f" (through its private helper {owner.split('::')[1]})",
+                                   nontrivial=False)
+                    continue
             seen.add(key)
             n += 1
             ctx.check(key in TRANSACTION_WRITERS, key,
@@ -241,7 +264,8 @@ def r3(ctx):
              "rolls back before re-raising; the exceptional arm rolls back / closes; the enclosing "
              "_trans_context_manager is restored on every exit of both arms")
 def r4(ctx):
-    f = ctx.func(f"{UTIL}::TransactionalContext.__exit__")
+    f = _nf(ctx, f"{UTIL}::TransactionalContext.__exit__", "commit", "rollback", "close", "_transaction_is_active",
+            "_rollback_can_be_called", "_transaction_is_closed", alias="dotted")
     g = rcfg(ctx, f, strict_exc=True)
     triv = trivial_predicates(ctx, f)(g)
     ctx.require(len(f.params) >= 2, "__exit__ lost its exception-type parameter")
@@ -276,7 +300,7 @@ def r4(ctx):
         if d.endswith("._trans_context_manager") and isinstance(st, ast.Assign) and (dotted(st.value) or "").endswith("_outer_trans_ctx"):
             restore.extend(g.nodes_for(st))
     # the restore may be skipped only on the outcome of its own innermost guard (out-of-band __exit__)
-    pm = f.module.parents()
+    pm = f.pm
     skip_atoms = set()
     for d, t, st in attr_stores(f.node):
         if d.endswith("._trans_context_manager") and isinstance(st, ast.Assign) and (dotted(st.value) or "").endswith("_outer_trans_ctx"):
@@ -310,7 +334,7 @@ def _enclosing_if_of(g, nodes):
         desc="NestedTransaction.__init__ links _previous_nested before publishing itself; _cancel recurses "
              "through _previous_nested; _deactivate_from_connection restores the previous savepoint")
 def r5(ctx):
-    f = ctx.func(f"{ENG}::NestedTransaction.__init__")
+    f = _nf(ctx, f"{ENG}::NestedTransaction.__init__", "_savepoint_impl")
     g = ctx.cfg(f)
     cparam = f.params[1]
     link = _stores(g, f.node, lambda d: d == "self._previous_nested",
@@ -329,7 +353,7 @@ def r5(ctx):
               "the new savepoint publishes itself before remembering the previous one (or before SAVEPOINT succeeded): "
               "the chain of enclosing savepoints is lost",
               "SAVEPOINT -> _previous_nested = connection._nested_transaction -> publish", f.loc, w or w2)
-    f = ctx.func(f"{ENG}::NestedTransaction._cancel")
+    f = _nf(ctx, f"{ENG}::NestedTransaction._cancel", "_deactivate_from_connection", "_cancel")
     g = ctx.cfg(f)
     off = _stores(g, f.node, lambda d: d == "self.is_active", lambda v: _is_const(v, False))
     deact = call_nodes(g, lambda nm, c: nm == "self._deactivate_from_connection")
@@ -354,7 +378,7 @@ def r5(ctx):
               "_cancel can return without " + " / ".join(missing) + ": when the root transaction ends, this savepoint "
               "(or an enclosing one) stays linked as connection._nested_transaction or stays active",
               "is_active=False, unlink, recurse into _previous_nested", f.loc, w)
-    f = ctx.func(f"{ENG}::NestedTransaction._deactivate_from_connection")
+    f = _nf(ctx, f"{ENG}::NestedTransaction._deactivate_from_connection")
     g = ctx.cfg(f)
     back = _stores(g, f.node, lambda d: d == "self.connection._nested_transaction", lambda v: dotted(v) == "self._previous_nested")
     bad = [n for n in back if ("self.connection._nested_transaction is self", True) not in guard_atoms(g.edge_guards(n))]
@@ -369,7 +393,7 @@ def r5(ctx):
         desc="Transaction.commit / rollback / close each delegate to the matching _do_* hook on every path")
 def r6(ctx):
     for name in ("commit", "rollback", "close"):
-        f = ctx.func(f"{ENG}::Transaction.{name}")
+        f = _nf(ctx, f"{ENG}::Transaction.{name}", "_do_commit", "_do_rollback", "_do_close")
         g = ctx.cfg(f)
         hooks = {call_name(c) for c in calls_in(f.node) if (call_name(c) or "").startswith("self._do_")}
         good = call_nodes(g, lambda nm, c: nm == f"self._do_{name}")
@@ -399,14 +423,22 @@ def _flag_sites(ctx):
         m = ctx.index.module(rel)
         if "= True" not in m.source:
             continue
-        for f in ctx.index.all_functions(m):
-            on, off = {}, {}
-            for d, t, st in attr_stores(f.node):
-                if d.startswith("self.") and d.count(".") == 1 and isinstance(st, (ast.Assign, ast.AnnAssign)):
-                    if _is_const(st.value, True):
-                        on.setdefault(d, []).append(st)
-                    elif _is_const(st.value, False):
-                        off.setdefault(d, []).append(st)
+        for f0 in ctx.index.all_functions(m):
+            def _flag_stores(fi):
+                on, off = {}, {}
+                for d, t, st in attr_stores(fi.node):
+                    if d.startswith("self.") and d.count(".") == 1 and isinstance(st, (ast.Assign, ast.AnnAssign)):
+                        if _is_const(st.value, True):
+                            on.setdefault(d, []).append(st)
+                        elif _is_const(st.value, False):
+                            off.setdefault(d, []).append(st)
+                return on, off
+            on, off = _flag_stores(f0)
+            if not on and not off:
+                continue
+            # the set / the reset may sit in an extracted helper: look at the function with its helpers inlined
+            f = normal_form(ctx, f0, keep=("_handle_dbapi_exception",), alias=None)
+            on, off = _flag_stores(f)
             for d in sorted(set(on) & set(off)):
                 g = ctx.cfg(f)
                 s_nodes = [n for st in on[d] for n in g.nodes_for(st)]
